@@ -16,7 +16,8 @@ RECURSIVE Rows(_, _, _, _, _)
 Rows(S, pend, inexpr, acc, fuel) ==
   IF fuel = 0 THEN Append(acc, <<"limit">>)
   ELSE LET N == StepFn(S, "int") t == N[1] IN
-       CASE t[1] = "Fail" -> Append(acc, <<"failure">>)
+       CASE t[1] = "Fail" -> (IF Len(t) > 1 /\ t[2] = "oom" THEN Append(acc, <<"limit">>)   \* outside the modelled arithmetic
+                               ELSE Append(acc, <<"failure">>))
          [] t[1] = "Done" -> Append(acc, <<"final", t[2]>>)
          [] t[1] = "OpN"  -> Rows(N, <<t[2], ListItems(t[4])>>, TRUE, acc, fuel - 1)
          [] t[1] = "Res"  -> IF inexpr /\ pend # <<>>
